@@ -103,7 +103,8 @@ func (r Raw) Value() string {
 		if err != nil {
 			return hex.EncodeToString(r.Bytes)
 		}
-		return t.Format("2006-01-02T15:04Z")
+		// the UTC instant, to the second: the layout's Z is a literal, and a UTCTime may carry seconds and a numeric offset
+		return t.UTC().Format("2006-01-02T15:04:05Z")
 
 	default:
 		return hex.EncodeToString(r.Bytes)
